@@ -183,6 +183,40 @@ func (s *Sim) CheckReloaded() {
 			r.Fail("pending-updates", "%s after reload: OweCommitment=%v, model says %v", nm(x), got, want)
 		}
 		s.checkFwdPkgs(x)
+		// A resolution this node issued and that survived the reload (every
+		// removal still in the model's log did: unsigned ones were dropped
+		// with the cut) must still be known to the reloaded object: the link
+		// re-issues resolutions of its forwarding packages after a restart
+		// and relies on the channel to refuse the second one. Accepting it
+		// would remove one HTLC twice. (Any error is a refusal; an HTLC that
+		// has left the logs altogether is "unknown".) At most the last four.
+		tried := 0
+		for i := len(m.S[x].Log) - 1; i >= 0 && tried < 4; i-- {
+			u := m.S[x].Log[i]
+			if u.Kind != USettle && u.Kind != UFail && u.Kind != UMalformed {
+				continue
+			}
+			tried++
+			var err error
+			var how string
+			switch (u.HtlcID + uint64(i)) % 3 {
+			case 0:
+				how = "FailHTLC"
+				err = ch.FailHTLC(u.HtlcID, []byte{0xdd}, nil, nil, nil)
+			case 1:
+				how = "MalformedFailHTLC"
+				var sha [32]byte
+				err = ch.MalformedFailHTLC(u.HtlcID, lnwire.CodeInvalidOnionHmac, sha, nil)
+			default:
+				how = "SettleHTLC"
+				err = ch.SettleHTLC(s.preimageOfPeerAdd(o, u.HtlcID), u.HtlcID, nil, nil, nil)
+			}
+			r.Count("probe_second_resolution_after_reload_refused")
+			if err == nil {
+				r.Fail("second-resolution-accepted", "%s after reload: %s for the peer's HTLC id=%d is accepted although this node's %s for it survived the reload (the object that issued it refuses a second resolution)",
+					nm(x), how, u.HtlcID, u.Kind)
+			}
+		}
 		next, err := ch.NextLocalHtlcIndex()
 		if err != nil {
 			r.Fail("reload-error", "%s.NextLocalHtlcIndex: %v", nm(x), err)
@@ -191,6 +225,16 @@ func (s *Sim) CheckReloaded() {
 			r.Fail("htlc-index", "%s after reload: next local HTLC index %d, model expects %d", nm(x), next, want)
 		}
 	}
+}
+
+// preimageOfPeerAdd: the preimage of the HTLC with that id in side o's log.
+func (s *Sim) preimageOfPeerAdd(o int, id uint64) [32]byte {
+	for _, u := range s.M.S[o].Log {
+		if u.Kind == UAdd && u.HtlcID == id {
+			return Preimage(u.PayNo)
+		}
+	}
+	return [32]byte{}
 }
 
 // checkFwdPkgs: the forwarding packages on disk after a reload are exactly
